@@ -265,10 +265,12 @@ func snapshot(ctx context.Context, kc *kfake.Clientset, ac *afake.Clientset) ([]
 // runInput executes one abstract input on the real code.
 func runInput(in AInput) (*PLine, error) {
 	ctx := context.Background()
-	lid := leaseID(in.Lease)
+	lid, err := leaseID(in.Lease)
+	if err != nil {
+		return nil, fmt.Errorf("input %d: lease id: %w", in.ID, err)
+	}
 	ns := kube.VerifLidNS(lid)
-	line := &PLine{ID: in.ID, Slice: in.Slice, Input: in, NS: ns, NSChars: strings.Split(ns, ""),
-		Lease: ALease{Owner: lid.Owner, DSeq: lid.DSeq, GSeq: lid.GSeq, OSeq: lid.OSeq, Provider: lid.Provider}}
+	line := &PLine{ID: in.ID, Slice: in.Slice, Input: in, NS: ns, NSChars: strings.Split(ns, ""), Lease: concrete(lid)}
 
 	kc := kfake.NewSimpleClientset()
 	ac := afake.NewSimpleClientset()
@@ -324,14 +326,16 @@ func runInput(in AInput) (*PLine, error) {
 	}
 	line.Other = []POther{}
 	for _, o := range in.Other {
-		lid2 := leaseID(o.Lease)
+		lid2, err := leaseID(o.Lease)
+		if err != nil {
+			return nil, fmt.Errorf("input %d: lease id: %w", in.ID, err)
+		}
 		pr, err := deploy(lid2, o.R)
 		if err != nil {
 			return nil, err
 		}
 		ns2 := kube.VerifLidNS(lid2)
-		line.Other = append(line.Other, POther{NS: ns2, NSChars: strings.Split(ns2, ""), Round: *pr,
-			Lease: ALease{Owner: lid2.Owner, DSeq: lid2.DSeq, GSeq: lid2.GSeq, OSeq: lid2.OSeq, Provider: lid2.Provider}})
+		line.Other = append(line.Other, POther{NS: ns2, NSChars: strings.Split(ns2, ""), Round: *pr, Lease: concrete(lid2)})
 	}
 	// teardown of the main lease
 	{
@@ -357,10 +361,58 @@ func runInput(in AInput) (*PLine, error) {
 	return line, nil
 }
 
-// Main: vh kube run -in inputs.ndjson -out out.ndjson
+// PProbe: the namespace name the real code derives for one lease id.
+type PProbe struct {
+	Lease   ALease   `json:"lease"`
+	NS      string   `json:"ns"`
+	NSChars []string `json:"nsChars"`
+}
+
+// probes: vh kube ns -in probes.ndjson -out names.ndjson -- lidNS for every abstract lease id of the file.
+func probes(args []string) int {
+	fs := flag.NewFlagSet("kube ns", flag.ContinueOnError)
+	inPath := fs.String("in", "", "abstract lease ids, ndjson (exported by TLC from MC_KubePolicy)")
+	outPath := fs.String("out", "", "lease id, namespace name; ndjson")
+	if err := fs.Parse(args); err != nil {
+		return 2
+	}
+	w, err := vcommon.NewWriter(*outPath)
+	if err != nil {
+		fmt.Fprintln(os.Stderr, "kubeh:", err)
+		return 2
+	}
+	n := 0
+	if err := vcommon.ReadLines(*inPath, func(raw json.RawMessage) error {
+		var l ALease
+		if err := json.Unmarshal(raw, &l); err != nil {
+			return err
+		}
+		lid, err := leaseID(l)
+		if err != nil {
+			return err
+		}
+		ns := kube.VerifLidNS(lid)
+		n++
+		return w.Write(PProbe{Lease: concrete(lid), NS: ns, NSChars: strings.Split(ns, "")})
+	}); err != nil {
+		fmt.Fprintln(os.Stderr, "kubeh: probes:", err)
+		return 2
+	}
+	if err := w.Close(); err != nil {
+		fmt.Fprintln(os.Stderr, "kubeh:", err)
+		return 2
+	}
+	fmt.Printf("{\"probes\": %d}\n", n)
+	return 0
+}
+
+// Main: vh kube run -in inputs.ndjson -out out.ndjson | vh kube ns -in probes.ndjson -out names.ndjson
 func Main(args []string) int {
+	if len(args) > 0 && args[0] == "ns" {
+		return probes(args[1:])
+	}
 	if len(args) == 0 || args[0] != "run" {
-		fmt.Fprintln(os.Stderr, "usage: vh kube run -in inputs.ndjson -out out.ndjson [-workers N]")
+		fmt.Fprintln(os.Stderr, "usage: vh kube run -in inputs.ndjson -out out.ndjson [-workers N] | vh kube ns -in probes.ndjson -out names.ndjson")
 		return 2
 	}
 	fs := flag.NewFlagSet("kube run", flag.ContinueOnError)
